@@ -14,7 +14,7 @@ META = {
             "the reviewed constructor sites (no TextRange::new/at/empty/up_to, no TextSize arithmetic elsewhere); A2 every "
             "NavigationTarget and every search hit pairs a range with the file of the node the range was read from; A3 syntax errors "
             "carry the current token's range or the empty range at the end of the text, and no other Error value is built; A4 name-like "
-            "nodes wrap exactly one token (C07/N1). One obligation per constructor site / aggregate.",
+            "nodes wrap exactly one token (C07/N1). One obligation per constructor site / aggregate. A6 = C13/D6 (the analysis is told about every file the store adds or removes); A7 = C13/D10.",
     "explanation": "A range read off a node or token of parse(file) lies inside that file and on character boundaries by C01 (the tree "
                    "is lossless). So it suffices that every range the analysis reports is such a range, paired with the right file. "
                    "That is a who-may-construct rule over the resolved MIR, checked for every site; conversion to LSP positions is C14.",
@@ -195,6 +195,13 @@ def run(F, res, tier):
     # the same string only if parse_module lexes its `src` argument as it is (no stripped prefix, no normalisation)
     from rules import c01 as _c01
     _c01.parse_module_rules(F, res, rule="A5")
+    # A6: a reported file belongs to the workspace as the document store sees it: the analysis is told about every file the
+    # store adds or removes before the handler that did it returns (C13/D6)
+    from rules import c13 as _c13
+    _c13.store_changes_reach_the_analysis(F, res, rule="A6")
+    # positions are converted through LineMap in both directions: writer and readers of its table use one coordinate system (C13/D10)
+    from rules import c13 as _c13lm
+    _c13lm.line_map_coordinates_agree(F, res, rule="A7")
 
 
 def thorough(F, res):
